@@ -246,4 +246,42 @@ theorem statsStep_totals (chi : Nat) (late : Bool) (h : HG) (tr : Tracker) (lr :
       unfold HG.postTr HG.preTr
       cases late <;> rfl
 
+
+/-- what one step does to `flops`: the pair cost plus the QR terms of the compression branch taken -/
+theorem statsStep_flops (chi : Nat) (late : Bool) (h : HG) (tr : Tracker) (lr : Nat × Nat)
+    (h' : HG) (tr' : Tracker) (hs : HG.statsStep chi late (some (h, tr)) lr = some (h', tr'))
+    (pi : Nat) (h2 : HG) (hc : (HG.preHG chi late h lr.1 lr.2).contract lr.1 lr.2 = some (pi, h2)) :
+    tr'.flops = tr.flops +
+      ((if late then h.neighborhoodCompressCost tr.chi [lr.1, lr.2] else 0) +
+       (HG.preHG chi late h lr.1 lr.2).contractPairCost lr.1 lr.2 +
+       (if late then 0 else h2.neighborhoodCompressCost tr.chi [pi])) := by
+  unfold HG.statsStep at hs
+  simp only at hs
+  rw [hc] at hs
+  simp only [Option.some.injEq, Prod.mk.injEq] at hs
+  obtain ⟨_, e2⟩ := hs
+  rw [← e2]
+  unfold HG.postTr HG.preTr
+  cases late
+  · simp [Tracker.postStep, Tracker.postCompress, Tracker.preCompress, Tracker.postContract,
+      Tracker.preContract, Tracker.preStep]
+  · simp [Tracker.postStep, Tracker.postCompress, Tracker.preCompress, Tracker.postContract,
+      Tracker.preContract, Tracker.preStep]
+
+theorem runPath_append (p q : List (Nat × Nat)) (st : HG × Forest) :
+    runPath (p ++ q) st = (runPath p st).bind (runPath q) := by
+  induction p generalizing st with
+  | nil => rfl
+  | cons ij rest ih =>
+    obtain ⟨i, j⟩ := ij
+    obtain ⟨h, F⟩ := st
+    simp only [List.cons_append, runPath]
+    split
+    · rfl
+    · split
+      · rfl
+      · split
+        · rfl
+        · exact ih _
+
 end Cotengra
